@@ -194,10 +194,14 @@ def gen_history(rng, prof, probes):
             note(which)
         elif kind == 'compact':
             sh.bk = {n: False for n in sh.bk}
-            which = rng.choice(['cupd', 'cdel', 'cupd', 'cdel', 'c1upd', 'c1del'])
-            t = rng.randrange(sh.tcur - 12, sh.tcur + 3)
-            ops.append('fupd %d' % t if 'upd' in which else 'fdel %d' % t)
-            ops.append('%s %d' % (which, t))
+            which = rng.choice(['cupd', 'cdel', 'cupd', 'cdel', 'c1upd', 'c1del', 'compact'])
+            if which == 'compact':
+                # compact.go Compact (CompactUpdates, CompactDeletes, GC) with cut-offs later than every message
+                ops.append('compact')
+            else:
+                t = rng.randrange(sh.tcur - 12, sh.tcur + 3)
+                ops.append('fupd %d' % t if 'upd' in which else 'fdel %d' % t)
+                ops.append('%s %d' % (which, t))
             sh.live = None or sh.live   # shadow not updated: compaction results depend on content
             note(which)
         elif kind == 'backup':
